@@ -1,7 +1,7 @@
 (* Model/RuleWire.v (prototype, decode half) — fromWireFormat + fromAuditRuleData with explicit panics, repaired guards. *)
 From Coq Require Import List Ascii NArith ZArith Bool Lia ZifyBool ZifyN ZifyNat.
 Import ListNotations.
-Require Import Mach.
+Require Import Mach RuleSwitches.
 Open Scope N_scope.
 Local Arguments N.mul : simpl never.
 Local Arguments N.add : simpl never.
@@ -31,8 +31,8 @@ Definition from_wire (data : str) : res (hdr * str) :=
       else Ok (h, firstn (N.to_nat (buflen h)) rest)
   end.
 
-(* string-valued fields (generated from the Go switch in the real development) *)
-Definition is_string_field (f : N) : bool := existsb (N.eqb f) [19;20;21;22;23;105;107;13;14;15;16;17;210;112].
+(* string-valued fields: the case list of the switch in fromAuditRuleData, read from the source by the translator (Gen/RuleSwitches.v) *)
+Definition is_string_field (f : N) : bool := existsb (N.eqb f) sw_string_fields_decode.
 
 Record rdata := { r_fields : list (N * N * N); r_strings : list str }.   (* (field, op, value) in order *)
 
